@@ -25,7 +25,10 @@ FS_CONSTS = [
     ("sim_fd_base_log2", FS_LIB, r"pub const SIM_FD_BASE: RawFd = 1 << (\d+);", "N"),
 ]
 
-HEADER = ("From TV.Lib Require Import Base.\nFrom TV.Fs Require Import FsImpl FsSpec.\n"
+KLASS_IDS = {"OpenOptsInvalid": 0, "RootOp": 1, "RenameSelf": 2, "RenameFile": 3, "RenameDir": 4, "StaleHandle": 5,
+             "Recreate": 6}
+
+HEADER = ("From TV.Lib Require Import Base.\nFrom TV.Fs Require Import FsImpl FsSpec FsSafe.\n"
           "Open Scope N_scope.\n")
 
 
@@ -68,7 +71,7 @@ class Spec(PropSpec):
     pid = "C10"
     subsys = "Fs"
     props_file = "C10.v"
-    theorems = ["c10_time_is_invisible", "c10_hosts_isolated",
+    theorems = ["c10_refines", "c10_sync_is_invisible", "c10_nonvacuous", "c10_time_is_invisible", "c10_hosts_isolated",
                 "c10_rename_file_refuted", "c10_rename_twice_refuted", "c10_rename_self_refuted",
                 "c10_rename_dir_refuted", "c10_stale_handle_refuted", "c10_recreate_refuted",
                 "c10_open_opts_refuted", "c10_root_op_refuted"]
@@ -89,7 +92,9 @@ class Spec(PropSpec):
         "ENOTDIR / EISDIR for a lookup that meets the wrong kind of entry may be reported by the implementation as NotFound",
         "io_uring front-end is covered by C18",
     ]
-    partial_note = None
+    partial_note = ("c10_refines covers every operation except create_dir_all / remove_dir_all (correspondence + oracle only) "
+                    "and holds outside the known classes RenameFile, RenameSelf, RenameDir, StaleHandle, Recreate, OpenOptsInvalid, "
+                    "RootOp, each of which has a _refuted theorem with a witness replayed on the crate")
 
     def gen_cases(self, ctx):
         rng = ctx.rng
@@ -117,15 +122,20 @@ class Spec(PropSpec):
         n = case["cfg"].get("nhosts", 1)
         sterm = term.replace("hrun_enc %d%%nat %d%%nat" % (n, case["cfg"].get("block_size") or 0),
                              "hsrun_enc %d%%nat" % n, 1)
-        return "(%s, %s)" % (term, sterm), probes, problems
+        cterm = "hclasses_enc" + term.split("hrun_enc", 1)[1].replace(" %d%%nat [" % (case["cfg"].get("block_size") or 0), " [", 1)
+        return "(%s, %s, %s)" % (term, sterm, cterm), probes, problems
 
     def compare(self, case, obs, model, probes):
         if isinstance(model, tuple) and model and model[0] == "error":
             return "model evaluation failed: %s" % str(model[1])[-400:]
-        impl_m, spec_m = model
+        impl_m, spec_m, klasses = model
         d = F.compare(case, obs, impl_m, probes)
         if d:
             return d
+        # the class predicates of FsSafe.v must be the ones of fam_fs.history_features
+        py = sorted(KLASS_IDS[k] for k in F.history_features(case, obs) if k in KLASS_IDS)
+        if not any(st[0] == "crash" for st in case["steps"]) and py != sorted(set(klasses)):
+            return "known-class predicates disagree: python %s, FsSafe.v %s" % (py, sorted(set(klasses)))
         # the Coq reference tree must agree with the independent python tree
         if not any(st[0] == "crash" for st in case["steps"]):
             exp = spec_expected(case)
